@@ -61,6 +61,10 @@ def catalogue():
         "roll-tuple": lambda b: torch.roll(b, (1, 1), (0, 3)),
         "roll-kw": lambda b: torch.roll(b, shifts=-1, dims=0),
         "roll-spatial": lambda b: torch.roll(b, 1, 3),
+        "roll-wrap": lambda b: torch.roll(b, 4, 0),            # more than one full turn (batch of 3)
+        "roll-wrap-neg": lambda b: b.roll(-5, 0),
+        "roll-wrap-tuple": lambda b: torch.roll(b, (7, 1), (0, 3)),
+        "roll-full-turn": lambda b: torch.roll(b, 3, 0),
         "index_select-perm": lambda b: torch.index_select(b, 0, torch.tensor([2, 0, 1])),
         "index_select-method": lambda b: b.index_select(0, torch.tensor([1, 2, 0])),
         "index_select-kw": lambda b: torch.index_select(b, dim=0, index=torch.tensor([1, 0, 2])),
